@@ -97,7 +97,10 @@ def make_image(rec):
         exif = Image.Exif()
         exif[0x0112] = rec["orient"]
         kw["exif"] = exif
-    im.save(buf, PIL_NAME[fmt], **kw)
+    if rec.get("frames"):
+        im.save(buf, "MPO", save_all=True, append_images=[im.transpose(Image.FLIP_LEFT_RIGHT)], **kw)
+    else:
+        im.save(buf, PIL_NAME[fmt], **kw)
     data = buf.getvalue()
     if fmt == "png" and d["kind"] == "phys":
         chunk = b"pHYs" + struct.pack(">IIB", d["x"], d["y"], d["unit"])
@@ -130,6 +133,8 @@ def gen_recipe(rnd, fmt, tint):
         x, y = both(lambda: rnd.choice(DENS + [rnd.randint(1, 2100)] * 5))
         unit = rnd.choice([0, 1, 1, 1, 2, 2])
         rec["dpi"] = {"kind": "jfif", "unit": unit, "x": x if unit else max(1, x % 7), "y": y if unit else max(1, y % 5)}
+        if rnd.random() < 0.15:
+            rec["frames"] = 2  # a multi-picture JPEG (MPF index in APP2: phone portrait / burst shots): still a JPEG file
     elif fmt == "tiff":
         if rnd.random() < 0.25:
             rec["dpi"] = {"kind": "none"}
